@@ -170,6 +170,9 @@ func genColdPlan(r *core.Rand, ep *Episode, st *Sites) *simsched.Plan {
 	for i := range p.Prio {
 		p.Prio[i]++
 	}
+	for i := 0; i < 12; i++ {
+		p.DynPrio = append(p.DynPrio, r.Range(-2, n+2))
+	}
 	switch r.Pick([]int{5, 2, 2}) {
 	case 0: // change points at the FIRST occurrences of d statements, for every task
 		p.Strategy = "first-occurrence"
